@@ -80,6 +80,7 @@ type ByteObj struct {
 	capT  *Term
 	ro    bool
 	tag   string
+	lzOff *Term // set by (*big.Int).Bytes: cells below this offset are zero
 }
 
 type abortErr struct {
